@@ -20,10 +20,11 @@ class Unsupported(Exception):
 
 
 class Cell(object):
-    __slots__ = ("val",)
+    __slots__ = ("val", "name")
 
-    def __init__(self, val):
+    def __init__(self, val, name=None):
         self.val = val
+        self.name = name  # optional: how an assignment to this cell is reported in the effect log
 
 
 class Const(object):
@@ -628,7 +629,9 @@ class Machine(object):
 
     def write(self, st, fr, lhs, cell, v, stmt):
         # assignments through a reference into caller-visible (labelled) memory are effects
-        if self.is_external(fr, lhs, cell):
+        if cell.name is not None:
+            st.effects.append(("assign", cell.name, lab(v), loc(stmt)))
+        elif self.is_external(fr, lhs, cell):
             st.effects.append(("assign", self.place_label(st, fr, lhs), lab(v), loc(stmt)))
         cell.val = v
 
